@@ -280,7 +280,7 @@ LAZY_NAR = [('clip', 'method'), ('wrap', 'builtin'), ('fold', 'method'), ('blend
             ('blend', 'builtin'), ('wrap', 'method'), ('moddif', 'method'), ('fold', 'builtin')]
 LAZY_NAR_LONG = [('linlin', 'method', 4), ('linexp', 'builtin', 4), ('lincurve', 'method', 5), ('expexp', 'method', 4),
                  ('linlin', 'builtin', 4), ('curvelin', 'method', 5), ('bilin', 'method', 6), ('lg3interp', 'builtin', 4)]
-HOWS = {('once', 0): ['stream'], ('once', 1): ['embed', 'nested'], ('tail', 1): ['tail'],
+HOWS = {('reset1', 0): ['reset1'], ('reset2', 0): ['reset2'], ('once', 0): ['stream'], ('once', 1): ['embed', 'nested'], ('tail', 1): ['tail'],
         ('twice', 1): ['twice', 'twice2'], ('inter', 0): ['inter'], ('inter', 1): ['inter-nested']}
 HOWS_T = {('once', 1): ['embed', 'nested', 'nested2']}
 
@@ -315,6 +315,8 @@ def gen_lazy(lazy, rnd, thorough):
     for i, sh in enumerate(lazy):
         ops = sh['ops']
         m = len(ops)
+        if not thorough and sh['law'] == 'reset2' and m == 3:
+            continue            # quick: reset after two calls only for unary / binary compositions
         hows = list(HOWS[(sh['law'], sh['gen'])])
         if thorough:
             hows = HOWS_T.get((sh['law'], sh['gen']), hows)
